@@ -12,7 +12,7 @@ import (
 	"testing"
 )
 
-func c10Key(sc *c01Script, frames []c01Frame) string {
+func c10Key(sc *c01Script, frames []c01Frame, phaseOf map[int]int) string {
 	started, ended := false, false
 	for _, f := range frames {
 		switch f.K {
@@ -28,7 +28,9 @@ func c10Key(sc *c01Script, frames []c01Frame) string {
 				return "other-late"
 			}
 			if !started {
-				if f.K == "pub" && f.Pubs[0].Off == 0 {
+				if f.K == "pub" && f.Pubs[0].Off == 0 && !(sc.Server && phaseOf[f.Pubs[0].ID] == 5) {
+					// (an offset-less publication delivered between the server-side commit and
+					// the subscribe push belongs to the commit-before-push path)
 					return "offset0-pub-before-start"
 				}
 				if sc.Server {
@@ -155,7 +157,7 @@ func TestVerifC10(t *testing.T) {
 			class = "driver-error"
 			t.Logf("case %d: %v", i, world.errs)
 		}
-		key := c10Key(sc, frames)
+		key := c10Key(sc, frames, world.phaseOf)
 		pushes, started := 0, false
 		for _, f := range frames {
 			switch f.K {
